@@ -220,6 +220,160 @@ func propC13Limit(c limitCase, o *hx.Obs) *hx.Failure {
 	return nil
 }
 
+// ---- limits over a history of searches on one engine instance ------------------------------------
+// The engine keeps state between searches (hash table, root move list, history counters, timers): every
+// search of a sequence has to honour its own limits, whatever the earlier searches were given.
+
+type limitStep struct {
+	Kind  string   `json:"kind"` // depth nodes searchmoves plain
+	Value int      `json:"value"`
+	Moves []string `json:"searchmoves,omitempty"`
+	Play  string   `json:"play_before,omitempty"` // a move made on the board before this search ("" = same position again)
+}
+
+type limitSeqCase struct {
+	Fen      string         `json:"fen"`
+	Steps    []limitStep    `json:"steps"`
+	Settings hx.SettingsVec `json:"settings,omitempty"`
+	NewGame  []bool         `json:"newgame_before,omitempty"`
+}
+
+func propC13Seq(c limitSeqCase, o *hx.Obs) *hx.Failure {
+	save := config.Settings
+	defer func() { config.Settings = save }()
+	c.Settings.Apply()
+	rp := rc.MustParse(c.Fen)
+	ep := hx.NewPos(c.Fen)
+	s := search.NewSearch()
+	d := &hx.Driver{}
+	s.SetUciHandler(d)
+	defer s.StopSearch()
+	samePosRestricted := 0
+	var prevList []string
+	for i, st := range c.Steps {
+		if st.Play != "" {
+			m, ok := rp.FindUCI(st.Play)
+			if !ok {
+				break
+			}
+			rp = rp.Make(m)
+			ep.DoMove(hx.ToEngine(m))
+			prevList = nil
+		}
+		if i < len(c.NewGame) && c.NewGame[i] {
+			s.NewGame()
+		}
+		legal := rp.Legal()
+		if len(legal) == 0 {
+			break
+		}
+		ctx := fmt.Sprintf("search %d of the sequence %+v from %s, on %s", i+1, c.Steps, c.Fen, rp.FEN())
+		l := hx.LimSpec{Mode: "depth", Depth: st.Value, StopAfterMs: -1, PonderHitAfterMs: -1}
+		if st.Kind == "nodes" {
+			l = hx.LimSpec{Mode: "nodes", Nodes: st.Value, StopAfterMs: -1, PonderHitAfterMs: -1}
+		}
+		l.Moves = st.Moves
+		out := hx.RunSearch(s, d, ep, &rp, l, 120*time.Second)
+		o.Evals(1)
+		if out.Slow {
+			o.Label("slow-search-stopped-by-harness(inconclusive)")
+			return nil
+		}
+		if out.Hung {
+			return hx.Failf("C13/"+st.Kind+"/hang", "%s: search did not end", ctx)
+		}
+		// the list the engine honours: listed moves that are legal; none of them legal = no restriction
+		var list []string
+		for _, m := range st.Moves {
+			if _, ok := rp.FindUCI(m); ok {
+				list = append(list, m)
+			}
+		}
+		if len(list) > 0 {
+			if f := bestInList(out.Result.BestMove, list, ctx, "api-later-search"); f != nil {
+				return f
+			}
+			if len(out.Result.Pv) > 0 {
+				if f := bestInList(out.Result.Pv[0], list, ctx+" (pv head)", "api-later-search"); f != nil {
+					return f
+				}
+			}
+			if prevList != nil && st.Play == "" {
+				samePosRestricted++
+			}
+		} else if _, ok := rp.FindUCI(hx.FromEngine(out.Result.BestMove).UCI(true)); !ok {
+			return hx.Failf("C13/sequence/illegal-best", "%s: best move %s is not legal", ctx, out.Result.BestMove.StringUci())
+		}
+		roots := len(legal)
+		if len(list) > 0 {
+			roots = len(list)
+		}
+		switch st.Kind {
+		case "depth", "searchmoves", "plain":
+			want := st.Value
+			if roots == 1 {
+				want = 1
+			}
+			if out.Result.SearchDepth != want {
+				return hx.Failf("C13/depth/iterations-later-search", "%s: %d iterations completed, want %d (root moves %d)", ctx, out.Result.SearchDepth, want, roots)
+			}
+		case "nodes":
+			if roots > 1 && out.Nodes > uint64(st.Value)+nodeOvershootAllowed {
+				return hx.Failf("C13/nodes/overshoot-later-search", "%s: %d nodes visited (limit %d, allowed overshoot %d)", ctx, out.Nodes, st.Value, nodeOvershootAllowed)
+			}
+		}
+		// an unrestricted search after a restricted one on the same position: at depth 1 every root move is
+		// searched, so the number of root moves the engine reports must be the number of legal moves
+		if len(list) == 0 && prevList != nil && st.Play == "" {
+			o.Label("unrestricted-after-restricted-same-position")
+		}
+		o.Label("seq-limit:" + st.Kind)
+		prevList = list
+		if len(list) == 0 {
+			prevList = nil
+		}
+	}
+	if samePosRestricted > 0 {
+		o.Label("two-searchmoves-lists-on-one-position")
+		o.NTKey(fmt.Sprintf("%s|%v", c.Fen, c.Steps))
+	} else if len(c.Steps) > 1 {
+		o.NT("")
+	}
+	return nil
+}
+
+func genLimitSeq(t *rapid.T, maxDepth int, gen func(*rapid.T) rc.Pos) limitSeqCase {
+	p := gen(t)
+	c := limitSeqCase{Fen: p.FEN(), Settings: genSettings(t, hx.SearchBoolSwitches(), 60)}
+	n := rapid.IntRange(2, 4).Draw(t, "searches")
+	for i := 0; i < n; i++ {
+		st := limitStep{}
+		if i > 0 && rapid.IntRange(0, 2).Draw(t, "play") == 0 && len(p.Legal()) > 0 {
+			m := hx.PickMove(t, &p, p.Legal(), 1)
+			st.Play = m.UCI(true)
+			p = p.Make(m)
+		}
+		if len(p.Legal()) == 0 {
+			break
+		}
+		switch rapid.IntRange(0, 5).Draw(t, "kind") {
+		case 0:
+			st.Kind, st.Value = "nodes", rapid.IntRange(1, 20000).Draw(t, "nodes")
+		case 1, 2:
+			st.Kind, st.Value = "depth", rapid.IntRange(1, maxDepth).Draw(t, "depth")
+		default:
+			st.Kind, st.Value = "searchmoves", rapid.IntRange(1, maxDepth).Draw(t, "sdepth")
+			st.Moves = genSubset(t, &p)
+		}
+		if st.Kind == "nodes" && rapid.IntRange(0, 2).Draw(t, "nodesWithList") == 0 {
+			st.Moves = genSubset(t, &p)
+		}
+		c.Steps = append(c.Steps, st)
+		c.NewGame = append(c.NewGame, i > 0 && rapid.IntRange(0, 5).Draw(t, "newgame") == 0)
+	}
+	return c
+}
+
 func tailLines(ls []hx.OutLine, n int) string {
 	if len(ls) > n {
 		ls = ls[len(ls)-n:]
@@ -320,6 +474,7 @@ func TestC13(t *testing.T) {
 		p := genPos(t)
 		return limitCase{Fen: p.FEN(), Kind: "searchmoves-uci", Value: rapid.IntRange(1, 3).Draw(t, "d"), Moves: genSubset(t, &p)}
 	}, propC13Limit)
+	hx.Sub(r, "limit-sequences", r.N(250, 3000), func(t *rapid.T) limitSeqCase { return genLimitSeq(t, r.N(4, 5), genPos) }, propC13Seq)
 	// (b) timing: few, serial
 	hx.Sub(r, "movetime", r.N(20, 150), func(t *rapid.T) limitCase {
 		p := rc.MustParse(hx.GenSeedFEN(t))
